@@ -58,3 +58,9 @@ func init() {
 		MustProbes: []string{"late-connection", "malformed-reported", "recovered-panic-logged", "runtime-registration"},
 	})
 }
+
+func c16Tcp(e *Env) {
+	t := e.T
+	cfg := srvCfg{prop: "C16", nConns: t.Range(1, 2), nDialled: t.Draw(2), msgsPer: [2]int{1, 6}, parkPct: 15, answerPct: 100, wideHdr: true}
+	newSrvWorld(e, cfg).run()
+}
